@@ -619,6 +619,10 @@ pub fn batch_main(b: &BatchArgs) -> BatchOut {
     out
 }
 
+fn shrink_budget_secs() -> u64 {
+    std::env::var("A5SIM_SHRINK_SECS").ok().and_then(|s| s.parse().ok()).unwrap_or(90)
+}
+
 pub fn minimise_and_store(f: ReplayFile, cand_path: &str, replay_dir: &str, work_dir: &str, regen: Option<&dyn Fn(u64, bool) -> Scenario>) -> ViolationReport {
     let mut f = f;
     let target = f.violation.clone().unwrap();
@@ -650,7 +654,7 @@ pub fn minimise_and_store(f: ReplayFile, cand_path: &str, replay_dir: &str, work
             }
         }
     }
-    let mut sh = Shrinker { target: target.clone(), tmp_path: format!("{}/shrink-tmp-{:016x}.json", work_dir, seed), evals: 0, log: Vec::new(), schedule_sensitive: false };
+    let mut sh = Shrinker { target: target.clone(), tmp_path: format!("{}/shrink-tmp-{:016x}.json", work_dir, seed), evals: 0, log: Vec::new(), schedule_sensitive: false, deadline: Some(Instant::now() + std::time::Duration::from_secs(shrink_budget_secs())) };
     let min = sh.shrink(f.clone());
     let steps_after: u64 = min.scenarios.iter().map(|s| s.total_ops()).sum();
     save(&final_path, &min);
